@@ -4,6 +4,7 @@ import Proofs.ProbingBuildBigram
 import Proofs.ProbingBuildRep
 import Proofs.ProbingBuildBlank
 import Proofs.ProbingBuildRepG
+import Proofs.ProbingBuildBlank2
 import Properties.C03
 /-! C03/C01 — the probing *builder* inside the model (`Model/ProbingBuild.lean` = lm/search_hashed.cc ReadNGrams,
 FindLower, AdjustLower, MarkLower, activate, unigram sign fix, missing-`<unk>` fix-up).
@@ -162,7 +163,39 @@ theorem probing_end_to_end_blank1 (combine : Nat → Word → Nat) (a : Arpa) (n
   obtain ⟨s, Mmid, Mlong, hb, rep⟩ := probing_build_represents_blank1 combine a nWords buckets um ok hcls hsorted hdist hinj hcaps
   exact ⟨s, hb, KV.C03.probing_prob a ok.wf (fun _ => false) combine _ Mmid Mlong rep inj h st sf w hw⟩
 
-/-- the full statement (NOT proved for models that need blanks): the built structure represents `Table.build a` -/
+/-- **`probing_build_represents_single`** — all files whose blanks are single-level, at any order: every n-gram of order
+≥ 4 has its immediate suffix *or the next shorter suffix* in the model (`Cls2`; trigrams arbitrary).  Same hypotheses
+and conclusion as `probing_build_represents_blank1`; the blank may now be based on an entry of any order
+(`invG_step_blank4`). -/
+theorem probing_build_represents_single (combine : Nat → Word → Nat) (a : Arpa) (nWords : Nat) (buckets : List Nat) (um : Rat)
+    (ok : ArpaOK' a nWords um)
+    (hcls : ∀ q ∈ ngramLines a, Cls2 a q.1)
+    (hsorted : (ngramLines a).Pairwise (fun p q => p.1.length ≤ q.1.length))
+    (hdist : (a.entries.map (·.1)).Nodup)
+    (hinj : ∀ k k', IsKey a k → IsKey a k' → k.length = k'.length → hashOf combine k = hashOf combine k' → k = k')
+    (hcaps : ∀ m, (keysOf (foldKeys [] (ngramLines a)) m).length < capOf buckets m) :
+    ∃ s Mmid Mlong, build combine false a nWords buckets um = .ok s ∧
+      Represents combine (toPLM false a.order s) (Table.build a) Mmid Mlong :=
+  build_represents_of_step combine a nWords buckets um ok (Cls2 a)
+    (fun S s p e inv si lc cls => step2 combine a nWords um ok (capOf buckets) S s p e inv si lc cls)
+    hcls hsorted hdist hinj hcaps
+
+/-- **`probing_end_to_end_single`** -/
+theorem probing_end_to_end_single (combine : Nat → Word → Nat) (a : Arpa) (nWords : Nat) (buckets : List Nat) (um : Rat)
+    (ok : ArpaOK' a nWords um)
+    (hcls : ∀ q ∈ ngramLines a, Cls2 a q.1)
+    (hsorted : (ngramLines a).Pairwise (fun p q => p.1.length ≤ q.1.length))
+    (hdist : (a.entries.map (·.1)).Nodup)
+    (hinj : ∀ k k', IsKey a k → IsKey a k' → k.length = k'.length → hashOf combine k = hashOf combine k' → k = k')
+    (hcaps : ∀ m, (keysOf (foldKeys [] (ngramLines a)) m).length < capOf buckets m)
+    (inj : HashInjective combine (Table.build a))
+    (h : List Word) (st : State) (sf : StateFor a h st) (w : Word) (hw : a.gram [w] ≠ none) :
+    ∃ s, build combine false a nWords buckets um = .ok s ∧
+      (fullScore (KV.ProbingLM.search combine (toPLM false a.order s)) st w).1.prob = score a h w := by
+  obtain ⟨s, Mmid, Mlong, hb, rep⟩ := probing_build_represents_single combine a nWords buckets um ok hcls hsorted hdist hinj hcaps
+  exact ⟨s, hb, KV.C03.probing_prob a ok.wf (fun _ => false) combine _ Mmid Mlong rep inj h st sf w hw⟩
+
+/-- the full statement (NOT proved for models with blank chains of length ≥ 2): the built structure represents `Table.build a` -/
 def ProbingBuildRepresents (combine : Nat → Word → Nat) (a : Arpa) (nWords : Nat) (buckets : List Nat) : Prop :=
   ∃ s Mmid Mlong, build combine false a nWords buckets = .ok s ∧
     Represents combine (toPLM false a.order s) (Table.build a) Mmid Mlong
